@@ -12,6 +12,7 @@ from __future__ import annotations
 import ast
 
 from sa import mutate as M
+from sa import pattern as PT
 from sa.ctx import Ctx
 from sa.layout import ints, write_atoms
 from sa.loader import AnalysisError, call_name, norm, own_nodes, parent
@@ -57,11 +58,14 @@ def rule_invalid_child(ctx: Ctx, rep: Report) -> None:
     for q in (f"{B}._pub_key_offset", f"{B}.__prv_key_derivation"):
         fi = ctx.func(q)
         g = ctx.cfg(fi)
-        hits = [n for t, pol, n in ctx.refusals(fi) if pol and norm(t) in ("offset >= _N_BYTES", "_N_BYTES <= offset")]
+        mo: dict[str, str] = {}
+        off = PT.find(fi.node, "$off = $h[:32]", mo)
+        hm = PT.find(fi.node, "$h = hmac.new($$key, $$data, 'sha512').digest()", mo)
+        rep.ob(rule, f"{fi.name}:offset_is_left_half", off is not None and hm is not None, fi.where(off), "the offset is the left 32 bytes of the HMAC-SHA512")
+        o_ = mo.get("off", "offset")
+        hits = [n for t, pol, n in ctx.refusals(fi) if pol and str(norm(t)) in (f"{o_} >= _N_BYTES", f"_N_BYTES <= {o_}")]
         ok = bool(hits) and g.must_pass([h.id for h in hits]) is None
         rep.ob(rule, f"{fi.name}:left_half", ok, fi.where(), "offset >= n refused on every path" if ok else "an out-of-range HMAC left half is used")
-        off = [n for n in own_nodes(fi.node) if isinstance(n, ast.Assign) and norm(n.targets[0]) == "offset"]
-        rep.ob(rule, f"{fi.name}:offset_is_left_half", bool(off) and norm(off[0].value) == "hmac_[:32]", fi.where(), f"offset = {norm(off[0].value) if off else None}")
     pd = ctx.func(f"{B}.__prv_key_derivation")
     g = ctx.cfg(pd)
     z = [n for t, pol, n in ctx.refusals(pd) if pol and norm(t) == "prv_key_int == 0"]
@@ -233,7 +237,7 @@ def rule_hmac_shape(ctx: Ctx, rep: Report) -> None:
     """C07.hmac_shape: what enters HMAC-SHA512 at each step."""
     rule = "C07.hmac_shape"
     pd = ctx.func(f"{B}.__prv_key_derivation")
-    xb = [n for n in own_nodes(pd.node) if isinstance(n, ast.Assign) and norm(n.targets[0]) == "xb"]
+    xb = [n for n in own_nodes(pd.node) if isinstance(n, ast.Assign) and isinstance(n.value, ast.IfExp) and isinstance(n.targets[0], ast.Name)]
     ok = bool(xb) and isinstance(xb[0].value, ast.IfExp) and norm(xb[0].value.test) == "index >= _HARDENED_OFFSET" and norm(xb[0].value.body) == "xkey.key" \
         and "bytes_from_prv_key_int(xkey.prv_key_int)" in norm(xb[0].value.orelse)
     rep.ob(rule, "prv:data", ok, pd.where(), "hardened: 0x00||k ; normal: the compressed public key")
@@ -262,9 +266,10 @@ def rule_ranges(ctx: Ctx, rep: Report) -> None:
     cs = refusal_constraints(ctx, rs)
     rep.ob(rule, "seed_bits", has_bound(cs, "<", 128, subject="bit_length") is not None and has_bound(cs, ">", 512, subject="bit_length") is not None, rs.where(), "128 <= seed bits <= 512")
     d = ctx.func(f"{B}._derive")
-    rep.ob(rule, "final_depth", has_bound(refusal_constraints(ctx, d), ">", 255, subject="final_depth") is not None, d.where(), "final depth > 255 refused")
-    fd = [n for n in own_nodes(d.node) if isinstance(n, ast.Assign) and norm(n.targets[0]) == "final_depth"]
-    rep.ob(rule, "final_depth:def", bool(fd) and norm(fd[0].value) == "xkey.depth + len(indexes)", d.where(), f"final_depth = {norm(fd[0].value) if fd else None}")
+    mf: dict[str, str] = {}
+    fd = PT.find(d.node, "$fd = xkey.depth + len($idx)", mf) or PT.find(d.node, "$fd = len($idx) + xkey.depth", mf)
+    rep.ob(rule, "final_depth:def", fd is not None, d.where(fd), "final depth = the key's depth + the number of steps")
+    rep.ob(rule, "final_depth", has_bound(refusal_constraints(ctx, d), ">", 255, subject=mf.get("fd", "final_depth")) is not None, d.where(), "final depth > 255 refused")
     v = ctx.func(f"{B}._assert_valid_depth_and_index")
     cv = refusal_constraints(ctx, v)
     rep.ob(rule, "index_u32", has_bound(cv, "<", 0, subject="index") is not None and has_bound(cv, ">", 0xFFFFFFFF, subject="index") is not None, v.where(), "0 <= index <= 2^32-1")
